@@ -11,6 +11,8 @@ pub struct KeySrc {
     pub host: IpAddr,
     pub dtls: Arc<DtlsTransport>,
     pub is_client: bool,
+    /// PeerConnection rig: the DTLS role is decided inside rustrtc; try both write keys
+    pub role_unknown: bool,
 }
 pub type KeyTable = Arc<Mutex<Vec<KeySrc>>>;
 
@@ -221,6 +223,16 @@ impl StdMonitor {
             None
         }
     }
+    /// the other direction's key of the same session (used when the DTLS role of a host is not known)
+    fn alt_key(&self, from: IpAddr) -> Option<(Vec<u8>, Vec<u8>)> {
+        let ks = self.keys.lock().unwrap();
+        let k = ks.iter().find(|k| k.host == from && k.role_unknown)?;
+        if let DtlsState::Connected(c, _) = k.dtls.get_state() {
+            Some((c.keys.server_write_key.clone(), c.keys.server_write_iv.clone()))
+        } else {
+            None
+        }
+    }
     fn walk(&mut self, from: SocketAddr, to: SocketAddr, d: &[u8], sh: &mut Shared, deliver: bool) -> Vec<String> {
         let mut toks: Vec<String> = Vec::new();
         let push = |toks: &mut Vec<String>, t: String| {
@@ -255,6 +267,7 @@ impl StdMonitor {
                 push(&mut toks, "DTLS:malformed".into());
             }
             let key = self.write_key(from.ip());
+            let alt = self.alt_key(from.ip());
             for r in recs.iter() {
                 match (r.ct, r.epoch) {
                     (22, 0) => {
@@ -293,7 +306,11 @@ impl StdMonitor {
                     }
                     (23, e) => {
                         push(&mut toks, "DTLS:app".into());
-                        let plain = if e > 0 { key.as_ref().and_then(|(k, iv)| open_record(k, iv, r)) } else { None };
+                        let plain = if e > 0 {
+                            key.as_ref().and_then(|(k, iv)| open_record(k, iv, r)).or_else(|| alt.as_ref().and_then(|(k, iv)| open_record(k, iv, r)))
+                        } else {
+                            None
+                        };
                         if !deliver {
                             for o in self.oracles.iter_mut() {
                                 o.on_dtls_record(&host, r, plain.as_deref(), d.len(), sh);
